@@ -1724,3 +1724,60 @@ Proof. intros Hd Hb. unfold derive, inherited_labels. simpl. rewrite Hd, Hb. ref
 (* the order in which base and derived class are used does not matter *)
 Theorem derive_order_irrelevant b d : derive true b d = derive false b d.
 Proof. reflexivity. Qed.
+
+(* ---- dataclasses deriving from dataclasses -------------------------------------------------- *)
+Lemma put_field_names_old f fs : In (fd_name f) (map fd_name fs) ->
+  map fd_name (put_field f fs) = map fd_name fs.
+Proof.
+  induction fs as [|g r IH]; simpl; [tauto|]. intro H.
+  destruct (String.eqb (fd_name g) (fd_name f)) eqn:E.
+  - apply String.eqb_eq in E. simpl. rewrite E. reflexivity.
+  - simpl. f_equal. apply IH. destruct H as [H|H]; [|exact H].
+    apply String.eqb_neq in E. congruence.
+Qed.
+
+Lemma put_field_names_new f fs : ~ In (fd_name f) (map fd_name fs) ->
+  put_field f fs = fs ++ [f].
+Proof.
+  induction fs as [|g r IH]; simpl; [reflexivity|]. intro H.
+  destruct (String.eqb (fd_name g) (fd_name f)) eqn:E.
+  - apply String.eqb_eq in E. exfalso. apply H. auto.
+  - f_equal. apply IH. tauto.
+Qed.
+
+Lemma put_field_nodup f fs : NoDup (map fd_name fs) -> NoDup (map fd_name (put_field f fs)).
+Proof.
+  intro H. destruct (in_dec string_dec (fd_name f) (map fd_name fs)) as [i|n].
+  - rewrite put_field_names_old; assumption.
+  - rewrite (put_field_names_new f fs n), map_app. apply NoDup_app_intro; [exact H | repeat constructor; intros [] |].
+    intros x Hx [<-|[]]. contradiction.
+Qed.
+
+(* the field a derived class declares again keeps its place and carries the new declaration *)
+Lemma put_field_replaces f fs : In (fd_name f) (map fd_name fs) -> In f (put_field f fs).
+Proof.
+  induction fs as [|g r IH]; simpl; [tauto|]. intro H.
+  destruct (String.eqb (fd_name g) (fd_name f)) eqn:E; [left; reflexivity|].
+  right. apply IH. destruct H as [H|H]; [apply String.eqb_neq in E; congruence | exact H].
+Qed.
+
+(* a derived dataclass has pairwise distinct field names whenever its base has, so C17_dataclass
+   applies to every inherited layout *)
+Theorem merge_fields_nodup child : forall parent,
+  NoDup (map fd_name parent) -> NoDup (map fd_name (merge_fields parent child)).
+Proof.
+  unfold merge_fields. induction child as [|f r IH]; intros parent H; simpl; [exact H|].
+  apply IH. apply put_field_nodup. exact H.
+Qed.
+
+Theorem merge_fields_base_first child : forall parent,
+  exists extra, map fd_name (merge_fields parent child) = map fd_name parent ++ extra.
+Proof.
+  unfold merge_fields. induction child as [|f r IH]; intro parent; simpl.
+  - exists []. rewrite List.app_nil_r. reflexivity.
+  - destruct (IH (put_field f parent)) as [extra He].
+    destruct (in_dec string_dec (fd_name f) (map fd_name parent)) as [i|n].
+    + rewrite (put_field_names_old f parent i) in He. exists extra. exact He.
+    + rewrite (put_field_names_new f parent n) in He |- *. rewrite map_app in He. simpl in He.
+      rewrite <- List.app_assoc in He. eexists. exact He.
+Qed.
